@@ -377,7 +377,19 @@ func RunSvc(sim *sched.Sim, c *SvcCase, raceMode bool, setup func(e *Engine)) *S
 		if t.Point == "actor.op" {
 			id, _ := strconv.Atoi(t.Arg)
 			if id > 0 && id < len(e.Subs) && e.Subs[id] != nil {
-				return started(e.Subs[id].Op.Ep)
+				op := e.Subs[id].Op
+				if op.Kind == "qreq" && len(op.Args) > 1 && op.Args[1] == "wait" {
+					// wait until the targeted query event exists (or the
+					// peer that would start it is done)
+					k, _ := strconv.Atoi(op.Args[0])
+					e.H.mu.Lock()
+					n := len(e.QEs)
+					e.H.mu.Unlock()
+					if n <= k && !e.idleNow {
+						return false
+					}
+				}
+				return started(op.Ep)
 			}
 		}
 		return true
@@ -393,6 +405,12 @@ func RunSvc(sim *sched.Sim, c *SvcCase, raceMode bool, setup func(e *Engine)) *S
 		}
 		run.noteState()
 		acts := sim.Enabled(filter)
+		if len(nonTime(acts)) == 0 && !e.idleNow {
+			e.idleNow = true
+			acts = sim.Enabled(filter)
+		} else if len(nonTime(acts)) > 0 {
+			e.idleNow = false
+		}
 		// lifecycle: is the life task eligible?
 		if life.IsParked() && life.Point == "life.wait" {
 			ep, _ := strconv.Atoi(life.Arg)
